@@ -2,9 +2,11 @@
    correspondence check still runs when a proof is broken). *)
 From Coq Require Import List ZArith Bool.
 From Coq Require Import ExtrOcamlBasic.
-From ABT Require Import Cfg.Hashtable Cfg.Atoi.
+From ABT Require Import Cfg.Hashtable Cfg.Atoi Cfg.Affinity Cfg.EnvClamp.
 Extraction Language OCaml.
 Extraction "../ocaml/extracted/c20.ml"
   Z.add Z.mul Z.opp Z.sub Z.div Z.modulo Z.eqb Z.ltb Z.leb Z.of_nat Z.to_nat Z.compare
   ccreate crun cstep ht_dump ht_heap_elems
-  atoi_impl atoi_int atoi_ui32 atoi_ui64.
+  atoi_impl atoi_int atoi_ui32 atoi_ui64
+  affinity_list_create affinity_list_create_buggy
+  c_env_init sane.
